@@ -133,6 +133,16 @@ def run(ctx):
         chk.unrecognised("R13.2", "finder", "operator search result is not Iterator::find(list, predicate): %s" % show(res)[:120], loc(fb.bodies[finder.path]["span"]))
         return
     src, pred = res.args
+    # the sorted list may come out of a private helper (`let ops = sort_ops(ops_in)`): look through it
+    for _ in range(3):
+        inner = src.args[0] if isinstance(src, App) and src.fn == "core::slice::<impl [T]>::iter" and len(src.args) == 1 else None
+        hb = fb.bodies.get(inner.fn) if isinstance(inner, App) else None
+        if hb is None or hb["arg_count"] != len(inner.args):
+            break
+        hps = [p for p in Interp(fb, _NoInline()).run(hb, list(inner.args)) if p.status != "unreachable"]
+        if len(hps) != 1 or hps[0].status != "return":
+            break
+        src = App(src.fn, [hps[0].result])
     s_src = show(src)
     m = re.match(r"^core::slice::<impl \[T\]>::iter\(mut:(core|std)::slice::<impl \[T\]>::(sort\w*)\((.*)\)\)$", s_src)
     if not m:
